@@ -202,6 +202,9 @@ LONG_LOOPS = {
     "<std::vec::Vec<u8> as db::types::encode_decode::Encode>::encode": 20,
     "<std::vec::Vec<u8> as db::types::encode_decode::Decode>::decode": 20,
     "memcmp.0": 66,
+    "to_be_bytes::<32>": 34,
+    "from_be_bytes::<64>": 66,
+    "from_be_slice": 66,
 }
 
 
@@ -353,7 +356,7 @@ def TC(timeout=600):
 
 _P3 = [("u8", "u8", True), ("u32", "u32", True), ("u64", "u64", True), ("array4", "[u8; 4]", False), ("option_u64", "Option<u64>", True),
        ("tuple_u64_u8", "(u64, u8)", False), ("vec_u8_len0", "Vec<u8> (empty)", True), ("vec_u8_len3", "Vec<u8> (3 bytes)", True),
-       ("string_len2", "String (2 ASCII bytes)", False), ("u64ed", "U64ED", True), ("u128ed", "U128ED", True), ("u256ed", "U256ED", True),
+       ("string_len2", "String (2 ASCII bytes)", False), ("string_non_ascii", "String with a 2-byte UTF-8 character", True), ("u64ed", "U64ED", True), ("u128ed", "U128ED", True), ("u256ed", "U256ED", True),
        ("u512ed", "U512ED", False), ("address", "AddressED", True), ("b256", "B256ED", True), ("address_nonce_key", "(AddressED, U64ED)", True),
        ("bytes_len2", "BytesED (2 bytes)", False), ("account_info", "AccountInfoED", True)]
 OBLIGATIONS += [
@@ -364,6 +367,13 @@ OBLIGATIONS += [
     _k("P4." + n, COD + "p4_order_" + n, ["C14", "C18"] if n == "u128ed" else ["C14"], f"order preservation for {ty}: a < b <=> enc(a) <lex enc(b)",
        "all pairs of values", q=TC(), th=TC(1200), inst=ty)
     for n, ty in (("u64", "u64"), ("u64ed", "U64ED"), ("u128ed", "U128ED"), ("address_nonce", "(AddressED, U64ED), same address"))
+] + [
+    _k("P4.storage_key", COD + "p4_order_storage_key", ["C14"], "storage keys of one account (U512ED::from_addr_u256) order like their slots",
+       "all pairs of 256-bit slots, one address", q=TC(900), th=TC(1800), inst="U512ED composite key"),
+    dict(id="H6.full11", engine="kani", harness=HIST + "h6_codec_full11", props=["C13", "C14"],
+         tiers={"thorough": T(cap=12, unwind=13, timeout=1800)},
+         what="history codec at the maximum size: 11 versions round-trip without losing one",
+         bounds="11 versions (W + 1), consecutive blocks from an arbitrary base, all values", instantiation="BlockHistoryCacheData<u8>"),
 ]
 
 # properties whose check is registered in MANIFEST.json in this revision
